@@ -29,6 +29,11 @@ RULES = {
     "C16-V1": "output face i is [k, k+1, .., k+n-1]; vertex k+j is appended with the position of the j-th vertex of input face i; the offset k starts at 0 and advances by n after the row",
     "C16-U1": "vertex copies are merged only for interior edges not in cut_edges, pairing the copy of a (resp. b) in one face with the copy of a (resp. b) in the other",
     "C16-M1": "compaction renumbers merged copies in order of first appearance; ref_vertex is the inverse of the duplicate table mapped through the same renumbering",
+    "C16-K1": "Kruskal over the singular vertices and the border sentinel: every pair / border candidate is recorded and weighed unconditionally, sorted ascending, selected exactly when its ends are not yet connected (record + union in one block), and every consecutive pair of every selected path is flagged",
+    "C16-K2": "with features: every singular vertex is linked to the feature graph by a fully flagged path; the feature graph is spanned breadth-first from every landing point, each tree edge flagged",
+    "C16-D1": "the two dual Dijkstra loops satisfy the skeleton obligations of C09-D1..D4 (pop-min, visited discipline, strict relaxation with label+predecessor in one block, push of the updated label)",
+    "C16-D2": "the dual tree never crosses an edge of the singularity spanning tree, records the crossed edge as predecessor, reaches the face opposite across that edge, and returns every recorded edge",
+    "C16-A1": "the exclusion set a spanning tree borrows from its caller is never mutated by the tree; cut_edges / cut_adj / ref_vertex are written only by the cutter's construction steps",
     "C16-C1": "cut edges = all edges minus the dual-tree edges; the cut adjacency is symmetric; pruning removes only leaves that are not singular, symmetrically, together with their edge",
 }
 
@@ -38,6 +43,10 @@ def run(ctx):
     u1_merges(ctx)
     m1_maps(ctx)
     c1_cut_graph(ctx)
+    k1_spanning_tree_no_features(ctx)
+    k2_spanning_tree_with_features(ctx)
+    d1_dual_trees(ctx)
+    a1_ownership(ctx)
 
 
 def _fn(ctx, name):
@@ -301,3 +310,432 @@ def c1_cut_graph(ctx):
         okr = rm_adj and rm_edge and clr
     ctx.check(okr, "C16-C1", site, "removing a leaf does not update both adjacency sides, the cut-edge set and the leaf itself",
               "the reported cut edges must be exactly the edges of the pruned cut graph", note="leaf removal keeps the three tables consistent")
+
+
+# =============================================================================================== spanning trees (C16-K1 / K2)
+def _dom(node, stop=None):
+    from ..rules.c1120_util import dominating_conditions, strip_not
+    return [strip_not(t, p) for t, p in dominating_conditions(au.enclosing_stmt(node) if not isinstance(node, ast.stmt) else node, stop=stop)]
+
+
+def _consecutive_pairs(loop, b):
+    """Does `loop` enumerate every consecutive pair of one sequence P?  Returns (P source, names of the pair) or None.
+    Accepted idioms: for i in range(1, len(P)): x, y = P[i-1], P[i]      for i in range(len(P) - 1): x, y = P[i], P[i+1]
+                     for x, y in zip(P, P[1:]) / zip(P[:-1], P[1:]) / consecutive_pairs(P)"""
+    it = loop.iter
+    if isinstance(it, ast.Call) and au.call_tail(it) == "zip" and len(it.args) == 2:
+        a0, a1 = it.args
+        if isinstance(a1, ast.Subscript) and isinstance(a1.slice, ast.Slice) and au.const(a1.slice.lower) == 1 and a1.slice.upper is None:
+            P = au.src(a1.value)
+            if au.src(a0) == P or (isinstance(a0, ast.Subscript) and isinstance(a0.slice, ast.Slice) and a0.slice.lower is None
+                                   and au.const(a0.slice.upper) == -1 and au.src(a0.value) == P):
+                return P
+        return None
+    if isinstance(it, ast.Call) and au.call_tail(it) in ("consecutive_pairs",) and len(it.args) == 1:
+        return au.src(it.args[0])
+    if not (isinstance(it, ast.Call) and au.call_tail(it) == "range" and isinstance(loop.target, ast.Name)):
+        return None
+    i = loop.target.id
+    lo = sym.Poly.const(0) if len(it.args) == 1 else sym.to_poly(it.args[0])
+    hi = it.args[0] if len(it.args) == 1 else it.args[1]
+    if len(it.args) > 2:
+        return None
+    hip = sym.to_poly(hi)
+    lens = [a for a in hip.atoms() if str(a).strip("\u27e8\u27e9").startswith("len(")]
+    if len(lens) != 1 or hip.coeff(lens[0]) != sym.Poly.const(1):
+        return None
+    P = str(lens[0]).strip("\u27e8\u27e9")[4:-1]
+    hi_off = hip.without(lens[0])
+    if not (lo.is_const() and hi_off.is_const()):
+        return None
+    lo_c, hi_c = lo.const_value(), hi_off.const_value()
+    # index offsets used on P inside the loop
+    offs = set()
+    for n in au.walk(loop):
+        if isinstance(n, ast.Subscript) and au.src(n.value) == P and not isinstance(n.slice, ast.Slice):
+            p = sym.to_poly(n.slice)
+            if p.coeff(i) != sym.Poly.const(1) or not p.without(i).is_const():
+                return None
+            offs.add(p.without(i).const_value())
+    if len(offs) != 2 or max(offs) - min(offs) != 1:
+        return None
+    # first pair is (P[0], P[1]), last pair is (P[len-2], P[len-1])
+    if lo_c + min(offs) == 0 and hi_c - 1 + max(offs) == -1:
+        return P
+    return None
+
+
+def k1_spanning_tree_no_features(ctx):
+    fn = _fn(ctx, "_build_singularity_spanning_tree_no_features")
+    site = ctx.site(CUT, fn)
+    b = sym.Bindings(fn)
+    R = "C16-K1"
+    why_tree = ("the selected paths must join every singular vertex (and the border, when there is one) into one tree: a singular vertex "
+                "that is left out has no copy on the border of the cut mesh")
+    # --- union-find over the singular vertices plus the border sentinel
+    ufs = [(st, t.id) for st in au.stmts(fn.body) if isinstance(st, ast.Assign) and isinstance(st.value, ast.Call)
+           and au.call_tail(st.value) == "UnionFind" for t in st.targets if isinstance(t, ast.Name)]
+    if len(ufs) != 1:
+        ctx.fail(R, site, "the union-find of Kruskal's algorithm over the singular vertices was not found", why_tree)
+        return
+    ufst, uf = ufs[0]
+    sentinels = [t.id for st in fn.body if isinstance(st, ast.Assign) and isinstance(au.const(st.value), int) and au.const(st.value) < 0
+                 for t in st.targets if isinstance(t, ast.Name)]
+    dom = b.resolve(ufst.value.args[0], at=ufst, keep=tuple(sentinels)) if ufst.value.args else None
+    txt = au.src(dom) if dom is not None else ""
+    ok = "self.singularities" in txt and any(s in au.names(dom) for s in sentinels) if dom is not None else False
+    ctx.check(ok, R, ctx.site(CUT, fn, ufst), f"the union-find ranges over `{txt[:80]}`, not over the singular vertices plus the border sentinel",
+              why_tree, note="union-find over singularities + BORDER")
+    # --- candidates: dict filled for every pair and for (BORDER, a)
+    cand = {}
+    for st in au.stmts(fn.body):
+        if isinstance(st, ast.Assign) and isinstance(st.targets[0], ast.Subscript) and isinstance(st.targets[0].value, ast.Name) \
+                and isinstance(st.value, (ast.Call, ast.Subscript)):
+            loops = [a for a in au.ancestors(st) if isinstance(a, ast.For)]
+            if loops and "self.singularities" in au.src(loops[-1].iter):
+                cand.setdefault(st.targets[0].value.id, []).append((st, loops))
+    cands = [k for k, v in cand.items() if len(v) >= 2]
+    if len(cands) != 1:
+        ctx.fail(R, site, "the table of candidate paths (singularity to singularity, singularity to border) was not found", why_tree)
+        return
+    D = cands[0]
+    n_border = n_pair = 0
+    for st, loops in cand[D]:
+        outer = loops[-1]
+        gs = _dom(st, stop=outer)
+        if isinstance(st.value, ast.Call) and au.call_tail(st.value) == "shortest_path_to_border":
+            n_border += 1
+            bad = [au.src(t) for t, pol in gs if not (isinstance(t, ast.Name) and pol and "boundary" in au.src(b.resolve(t, at=st)))]
+            key = st.targets[0].slice
+            okk = isinstance(key, ast.Tuple) and len(key.elts) == 2 and any(isinstance(e, ast.Name) and e.id in sentinels for e in key.elts)
+            ctx.check(not bad and okk, R, ctx.site(CUT, fn, st),
+                      f"the path from a singular vertex to the border is recorded only under {bad or 'an unexpected key'}",
+                      "every singular vertex needs its candidate link to the border whenever the mesh has one (a zero-length link included)",
+                      note="(BORDER, a) candidate for every singularity")
+        else:
+            n_pair += 1
+            ctx.check(not gs, R, ctx.site(CUT, fn, st), f"a candidate path between two singular vertices is recorded only under {[au.src(t) for t, _ in gs]}",
+                      why_tree, note="pair candidates recorded unconditionally")
+    ctx.check(n_border == 1 and n_pair >= 1, R, site, "candidate links singularity-border / singularity-singularity are not both recorded", why_tree)
+    # shortest_path targets cover the remaining singular vertices
+    for c in au.calls(fn):
+        if au.call_tail(c) == "shortest_path" and len(c.args) >= 3:
+            t = au.src(b.resolve(c.args[2], at=au.enclosing_stmt(c)))
+            ctx.check("self.singularities" in t and "[i+1:]" not in t.replace(" ", "") or "self.singu_set" in t, R, ctx.site(CUT, fn, c),
+                      f"pair candidates are computed towards `{t[:60]}` only", why_tree, note="targets = the remaining singular vertices")
+    # --- every candidate enters the sorted list, unconditionally
+    apps = []
+    for c in au.calls(fn):
+        if au.call_tail(c) == "append" and isinstance(c.func.value, ast.Name) and c.args and isinstance(c.args[0], ast.Tuple):
+            loops = [a for a in au.ancestors(c) if isinstance(a, ast.For)]
+            if loops and au.src(loops[0].iter).split(".")[0].split("(")[-1].strip() in (D,) or (loops and D in au.names(loops[0].iter)):
+                apps.append((c, loops[0]))
+    if len(apps) != 1:
+        ctx.fail(R, site, "the list of (length, candidate) pairs built from every candidate path was not found", why_tree)
+        return
+    app, lp = apps[0]
+    L = app.func.value.id
+    gs = _dom(app, stop=lp)
+    ctx.check(not gs, R, ctx.site(CUT, fn, app), f"a candidate path enters Kruskal's list only under {[au.src(t) for t, _ in gs]}",
+              "a candidate that is filtered out (e.g. the zero-length link of a singular vertex lying on the border) leaves its end points "
+              "to be joined through a longer path or not at all", note="every candidate is weighed")
+    # sorted ascending before the selection loop
+    sel_loops = [st for st in fn.body if isinstance(st, ast.For) and L in au.names(st.iter)
+                 and any(au.call_tail(c) == "union" for c in au.calls(st))]
+    if len(sel_loops) != 1:
+        ctx.fail(R, site, "Kruskal's selection loop over the weighed candidates was not found", why_tree)
+        return
+    sel = sel_loops[0]
+    sorted_ok = any(isinstance(st, ast.Expr) and isinstance(st.value, ast.Call) and au.call_tail(st.value) == "sort"
+                    and au.src(st.value.func.value) == L and not st.value.keywords and st.lineno < sel.lineno and st.lineno > lp.lineno
+                    for st in fn.body) or (isinstance(sel.iter, ast.Call) and au.call_tail(sel.iter) == "sorted" and not sel.iter.keywords)
+    ctx.check(sorted_ok, R, ctx.site(CUT, fn, sel), "the candidates are not sorted by increasing length before the selection", 
+              "Kruskal on unsorted candidates still spans but the cut is no longer the minimal one the cutter documents", note="sorted ascending")
+    # selection: append + union in the block guarded by not connected
+    unions = [c for c in au.calls(sel) if au.call_tail(c) == "union" and au.src(c.func.value) == uf]
+    okb = False
+    if len(unions) == 1:
+        u = unions[0]
+        gs = _dom(u, stop=sel)
+        okg = len(gs) == 1 and isinstance(gs[0][0], ast.Call) and au.call_tail(gs[0][0]) == "connected" and gs[0][1] is False \
+            and {au.src(a) for a in gs[0][0].args} == {au.src(a) for a in u.args}
+        blk, _ = au.enclosing_block(au.enclosing_stmt(u))
+        rec = [c for s in blk for c in au.calls(s) if au.call_tail(c) == "append"]
+        okb = okg and len(rec) == 1
+        selected = au.src(rec[0].func.value) if rec else None
+    ctx.check(okb, R, ctx.site(CUT, fn, sel), "a candidate is not selected exactly when its end points are not yet connected (record + union in one block)",
+              why_tree, note="selected iff not connected; union with the record")
+    if not okb:
+        return
+    # --- flagging: every consecutive pair of every selected path
+    flag_loops = [st for st in fn.body if isinstance(st, ast.For) and au.src(st.iter) == selected]
+    okf = False
+    if len(flag_loops) == 1:
+        inner = [s for s in au.stmts(flag_loops[0].body) if isinstance(s, ast.For)]
+        if len(inner) == 1:
+            P = _consecutive_pairs(inner[0], b)
+            stores = [s for s in au.stmts(inner[0].body) if isinstance(s, ast.Assign) and isinstance(s.targets[0], ast.Subscript)
+                      and au.const(s.value) is True]
+            if P is not None and len(stores) == 1 and not _dom(stores[0], stop=flag_loops[0]):
+                pdef = au.src(b.resolve(ast.parse(P, mode="eval").body, at=inner[0], keep=(D,)))
+                key = b.resolve(stores[0].targets[0].slice, at=stores[0])
+                okf = pdef.startswith(D + "[") and isinstance(key, ast.Call) and au.call_tail(key) == "edge_id" and len(key.args) == 2
+    ctx.check(okf, R, site, "the edges of the selected paths are not all flagged (every consecutive pair of every selected path, unconditionally)",
+              "an unflagged edge of the spanning tree may be crossed by the dual tree: the singular vertices are then no longer joined by cuts",
+              note="all edges of all selected paths flagged")
+
+
+def k2_spanning_tree_with_features(ctx):
+    fn = _fn(ctx, "_build_singularity_spanning_tree_with_features")
+    site = ctx.site(CUT, fn)
+    b = sym.Bindings(fn)
+    R = "C16-K2"
+    why = "with feature edges the singular vertices are joined to the feature graph, which is then spanned: every link must be cut"
+    loops = [st for st in fn.body if isinstance(st, ast.For) and au.src(st.iter) in ("self.singularities", "self.singu_set")]
+    ok = False
+    closest = None
+    if len(loops) == 1:
+        lp = loops[0]
+        calls = [c for c in au.calls(lp) if au.call_tail(c) == "shortest_path_to_vertex_set"]
+        inner = [s for s in lp.body if isinstance(s, ast.For)]
+        adds = [c for c in au.calls(lp) if au.call_tail(c) in ("add", "append") and isinstance(c.func.value, ast.Name)]
+        if len(calls) == 1 and len(inner) == 1 and len(adds) == 1 and not _dom(adds[0], stop=lp):
+            P = _consecutive_pairs(inner[0], b)
+            stores = [s for s in au.stmts(inner[0].body) if isinstance(s, ast.Assign) and isinstance(s.targets[0], ast.Subscript)
+                      and au.const(s.value) is True]
+            tgt = au.src(calls[0].args[2]) if len(calls[0].args) >= 3 else ""
+            ok = P is not None and len(stores) == 1 and not _dom(stores[0], stop=lp) and "feature_vertices" in tgt
+            closest = adds[0].func.value.id
+    ctx.check(ok, R, site, "not every singular vertex is linked to the feature graph by a fully flagged shortest path", why,
+              note="singularity -> feature graph links flagged edge by edge")
+    # BFS over the feature graph from every landing point
+    wl = [st for st in fn.body if isinstance(st, ast.While)]
+    okb = False
+    if len(wl) == 1 and closest:
+        w = wl[0]
+        seeds = [st for st in fn.body if isinstance(st, ast.For) and st.lineno < w.lineno and closest in au.names(st.iter)
+                 and any(au.call_tail(c) == "append" for c in au.calls(st)) and not any(isinstance(s, ast.If) for s in st.body)]
+        pops = [c for c in au.calls(w) if au.call_tail(c) == "popleft"]
+        flag = [s for s in au.stmts(w.body) if isinstance(s, ast.Assign) and isinstance(s.targets[0], ast.Subscript) and au.const(s.value) is True
+                and isinstance(b.resolve(s.targets[0].slice, at=s), ast.Call) and au.call_tail(b.resolve(s.targets[0].slice, at=s)) == "edge_id"]
+        okflag = False
+        if len(flag) == 1:
+            gs = _dom(flag[0], stop=w)
+            # guards: prev is not None (and the visited early-continue)
+            rest = [(t, p) for t, p in gs if not (isinstance(t, ast.Subscript) and p is False)]
+            okflag = len(rest) == 1 and isinstance(rest[0][0], ast.Compare) and isinstance(rest[0][0].ops[0], (ast.IsNot, ast.Is)) \
+                and au.const(rest[0][0].comparators[0], 0) is None
+        feat_guard = any(isinstance(t, ast.Compare) and isinstance(t.ops[0], ast.In) and "feature_edges" in au.src(t.comparators[0])
+                         for c in au.calls(w) if au.call_tail(c) == "append" for t, p in _dom(c, stop=w) if p)
+        okb = len(seeds) == 1 and len(pops) == 1 and okflag and feat_guard
+    ctx.check(okb, R, site, "the feature graph is not spanned breadth-first from every landing point with each tree edge flagged", why,
+              note="BFS tree of the feature graph flagged")
+
+
+# =============================================================================================== dual Dijkstra (C16-D*)
+class _Renamed:
+    """view of a Ctx that files the obligations of a sibling rule set (C09-D1..D4) under this property's rule names"""
+
+    def __init__(self, ctx, mapping):
+        self._ctx, self._map = ctx, mapping
+
+    def __getattr__(self, k):
+        return getattr(self._ctx, k)
+
+    def ok(self, rule, site, note=""):
+        return self._ctx.ok(self._map.get(rule, rule), site, note)
+
+    def fail(self, rule, site, construct, what, **detail):
+        return self._ctx.fail(self._map.get(rule, rule), site, construct, what, **detail)
+
+    def check(self, cond, rule, site, construct, what, note="", **detail):
+        return self._ctx.check(cond, self._map.get(rule, rule), site, construct, what, note=note, **detail)
+
+
+DUAL = ("_build_dual_tree_no_features", "_build_dual_tree_with_features")
+
+
+def d1_dual_trees(ctx):
+    from . import c09
+    sub = _Renamed(ctx, {"C09-D1": "C16-D1", "C09-D2": "C16-D1", "C09-D3": "C16-D1", "C09-D4": "C16-D1", "C09-Q1": "C16-D1"})
+    item = c09.q1_priority_queue(_Renamed(ctx, {k: "C16-D1" for k in c09.RULES}))
+    for name in DUAL:
+        fn = _fn(ctx, name)
+        site = ctx.site(CUT, fn)
+        n = c09.dijkstra(sub, CUT, fn, item)
+        ctx.check(n == 1, "C16-D1", site, f"{name}: the dual Dijkstra loop was not found", "")
+        b = sym.Bindings(fn)
+        loop = [st for st in fn.body if isinstance(st, ast.While)]
+        if len(loop) != 1:
+            continue
+        loop = loop[0]
+        forb = au.params(fn, skip_self=True)[0]
+        # the tree never crosses an edge of the singularity spanning tree
+        relax = [s for s in au.stmts(loop.body) if isinstance(s, ast.Assign) and isinstance(s.targets[0], ast.Subscript)
+                 and isinstance(s.targets[0].value, ast.Name) and not (isinstance(s.value, ast.Constant))]
+        pushes = [c for c in au.calls(loop) if au.call_tail(c) == "push"]
+        okx = bool(relax) and bool(pushes)
+        evar = None
+        for node in relax + pushes:
+            gs = _dom(node, stop=loop)
+            hit = [t for t, pol in gs if isinstance(t, ast.Subscript) and au.src(t.value) == forb and pol is False]
+            okx = okx and len(hit) == 1
+            if hit:
+                evar = au.src(hit[0].slice)
+        ctx.check(okx, "C16-D2", ctx.site(CUT, fn, loop),
+                  f"{name}: a dual edge is relaxed / queued without the test `not {forb}[edge]`",
+                  "the dual tree must not cross the edges that join the singular vertices: those edges have to end up in the cut graph, "
+                  "otherwise a singular vertex has no copy on the border", note="spanning-tree edges never crossed")
+        # predecessor = the very edge that was tested and crossed
+        okp = False
+        for s in relax:
+            if evar and au.src(s.value) == evar:
+                okp = True
+        ctx.check(okp, "C16-D2", ctx.site(CUT, fn, loop), f"{name}: the edge recorded for a reached face is not the edge `{evar}` that was crossed",
+                  "the cut graph is the complement of the recorded dual edges", note="predecessor edge = crossed edge")
+        # the neighbour face is the face on the other side of that same edge
+        okn = False
+        for c in au.calls(loop):
+            if au.call_tail(c) == "opposite_face" and len(c.args) == 3:
+                ends = {au.src(a) for a in c.args[:2]}
+                e_def = [s for s in au.stmts(loop.body) if isinstance(s, ast.Assign) and isinstance(s.targets[0], ast.Tuple)
+                         and {x.id for x in s.targets[0].elts if isinstance(x, ast.Name)} == ends and evar
+                         and au.src(s.value) == f"self.input_mesh.edges[{evar}]"]
+                cur = [p for p in au.calls(loop) if au.call_tail(p) == "face_to_edges"]
+                okn = bool(e_def) and bool(cur) and au.src(c.args[2]) == au.src(cur[0].args[0])
+        ctx.check(okn, "C16-D2", ctx.site(CUT, fn, loop), f"{name}: the face reached through edge `{evar}` is not opposite_face(ends of that edge, current face)",
+                  "", note="neighbour across the tested edge")
+        # result: every recorded edge, nothing else
+        rets = [st for st in fn.body if isinstance(st, ast.Return)]
+        okr = False
+        if len(rets) == 1 and isinstance(rets[0].value, (ast.SetComp, ast.Call)):
+            v = rets[0].value
+            comp = v if isinstance(v, ast.SetComp) else (v.args[0] if v.args and isinstance(v.args[0], (ast.GeneratorExp, ast.ListComp, ast.SetComp)) else None)
+            if comp is not None and len(comp.generators) == 1:
+                g = comp.generators[0]
+                pred = {au.src(s.targets[0].value) for s in relax if evar and au.src(s.value) == evar}
+                okr = au.src(g.iter) in ("self.input_mesh.id_faces", "range(len(self.input_mesh.faces))") and isinstance(comp.elt, ast.Subscript) \
+                    and au.src(comp.elt.value) in pred and au.src(comp.elt.slice) == au.src(g.target) and len(g.ifs) == 1 \
+                    and au.norm(g.ifs[0]) == au.norm(ast.parse(f"{au.src(comp.elt)} is not None", mode="eval").body)
+        ctx.check(okr, "C16-D2", site, f"{name}: the returned set is not {{edge recorded for f : every face f with a recorded edge}}",
+                  "a dual edge missing from the result is reported as cut and opened", note="returns every dual tree edge")
+
+
+# =============================================================================================== ownership of the cut data (C16-A1)
+MUTATORS = {"add", "remove", "discard", "update", "clear", "pop", "append", "extend", "insert", "difference_update",
+            "intersection_update", "symmetric_difference_update", "sort", "reverse", "setdefault", "popitem"}
+TREE_MODULES = ("processing.trees.base", "processing.trees.edge_sp", "processing.trees.face_sp", "processing.trees.cell_sp")
+_A1_FIXTURE = """
+class T:
+    def __init__(self, mesh, forbidden=None):
+        if forbidden is None:
+            self.forbidden = set()
+        else:
+            self.forbidden = forbidden
+    def compute(self):
+        for e in self.mesh.id_edges:
+            self.forbidden.add(e)
+"""
+
+
+def _borrowed_fields(cls):
+    """fields that `__init__` binds directly to one of its parameters (the object stays shared with the caller)"""
+    out = {}
+    for st in cls.body:
+        if isinstance(st, ast.FunctionDef) and st.name == "__init__":
+            ps = set(au.params(st, skip_self=True))
+            for s in au.stmts(st.body):
+                if isinstance(s, (ast.Assign, ast.AnnAssign)) and s.value is not None:
+                    v = s.value
+                    if isinstance(v, ast.Name) and v.id in ps:
+                        for t in au.assign_targets(s):
+                            if au.is_self_attr(t):
+                                out[t.attr] = v.id
+    return out
+
+
+def _field_mutations(cls, fields):
+    for st in cls.body:
+        if not isinstance(st, ast.FunctionDef):
+            continue
+        for n in au.walk(st, into_funcs=True):
+            if isinstance(n, ast.Call) and isinstance(n.func, ast.Attribute) and n.func.attr in MUTATORS:
+                r = n.func.value
+                while isinstance(r, ast.Subscript):
+                    r = r.value
+                if au.is_self_attr(r) and r.attr in fields:
+                    yield st, n, r.attr, f"self.{r.attr}.{n.func.attr}(..)"
+            elif isinstance(n, ast.AugAssign):
+                r = n.target
+                while isinstance(r, ast.Subscript):
+                    r = r.value
+                if au.is_self_attr(r) and r.attr in fields:
+                    yield st, n, r.attr, f"augmented assignment on self.{r.attr}"
+            elif isinstance(n, (ast.Assign, ast.Delete)):
+                for t in (n.targets if isinstance(n, (ast.Assign, ast.Delete)) else []):
+                    if isinstance(t, ast.Subscript):
+                        r = t.value
+                        while isinstance(r, ast.Subscript):
+                            r = r.value
+                        if au.is_self_attr(r) and r.attr in fields:
+                            yield st, n, r.attr, f"item store / delete on self.{r.attr}"
+
+
+def a1_ownership(ctx):
+    R = "C16-A1"
+    # positive fixture: the matcher must see a borrowed exclusion set being filled
+    tree = ast.parse(_A1_FIXTURE)
+    for x in ast.walk(tree):
+        for c in ast.iter_child_nodes(x):
+            c._parent = x
+    fx = tree.body[0]
+    bf = _borrowed_fields(fx)
+    from ..core import AnalysisError
+    if bf != {"forbidden": "forbidden"} or len(list(_field_mutations(fx, bf))) != 1:
+        raise AnalysisError("C16-A1: built-in fixture (tree filling the exclusion set it borrowed) not recognised")
+    n_cls = 0
+    for modname in TREE_MODULES:
+        m = ctx.repo.module(modname)
+        for q, cls in m.classes.items():
+            bf = _borrowed_fields(cls)
+            if not bf:
+                continue
+            n_cls += 1
+            hits = list(_field_mutations(cls, bf))
+            for fn, node, f, how in hits:
+                ctx.fail(R, ctx.site(modname, f"{q}.{fn.name}", node), f"{q}.{fn.name}: {how} changes the object the caller passed as `{bf[f]}`",
+                         "the exclusion set handed to a tree (the cutter's cut_edges, in the parametrisation code) stays the caller's object: "
+                         "filling it during a traversal changes the reported cut edges after the fact")
+            if not hits:
+                ctx.ok(R, ctx.site(modname, q), f"{q}: borrowed {sorted(bf)} never mutated")
+    ctx.require_count("C16-A1 tree classes keeping a caller's exclusion set", n_cls, 3)
+    # cutter results are written by the cutter only
+    owners = {"_build_cut_edges_tree", "_prune_edge_tree", "__init__", "_build_mesh_with_cuts"}
+    fields = {"cut_edges", "cut_adj", "ref_vertex"}
+    for modname, m in sorted(ctx.repo.modules.items()):
+        for n in ast.walk(m.tree):
+            recv = None
+            how = None
+            if isinstance(n, ast.Call) and isinstance(n.func, ast.Attribute) and n.func.attr in MUTATORS:
+                r = n.func.value
+                while isinstance(r, ast.Subscript):
+                    r = r.value
+                if isinstance(r, ast.Attribute) and r.attr in fields:
+                    recv, how = r, f".{n.func.attr}(..)"
+            elif isinstance(n, (ast.Assign, ast.AugAssign, ast.Delete)):
+                ts = n.targets if isinstance(n, (ast.Assign, ast.Delete)) else [n.target]
+                for t in ts:
+                    r = t
+                    sub = False
+                    while isinstance(r, ast.Subscript):
+                        r, sub = r.value, True
+                    if isinstance(r, ast.Attribute) and r.attr in fields and (sub or isinstance(n, ast.AugAssign) or not au.is_self_attr(r)):
+                        recv, how = r, "store"
+            if recv is None:
+                continue
+            fn = au.enclosing_func(n)
+            inside = modname.endswith(CUT) and au.is_self_attr(recv) and fn is not None and fn.name in owners
+            ctx.check(inside, R, ctx.site(modname, getattr(fn, "_qualname", None) or (fn.name if fn else "<module>"), n),
+                      f"`{au.src(recv)}` {how} outside the cutter's own construction steps",
+                      "cut_edges / cut_adj / ref_vertex describe the cuts that were made; changing them elsewhere makes the report disagree with the cut mesh",
+                      note="cut data written by the cutter")
